@@ -1,3 +1,120 @@
-(* C18  (stub while the correspondence is brought up) *)
-From V Require Import Model.Response Proofs.Response.
-Example C18_nonvacuous : next4 5 = 8. Proof. reflexivity. Qed.
+(* C18  Server answers echo the request correctly and reflect nothing else.
+   Property theorems only; proofs are in Proofs/Response.v, the model in Model/Response.v.
+
+   The model's request type carries, of every extension field, its kind and length and -- only for
+   unique identifiers, draft identifications and reference-id responses -- its bytes; of the header
+   only version, mode, poll, the transmit timestamp / client cookie and the upgrade marker; of an
+   NTS authenticator that failed nothing at all (FInvalidNts).  Everything else in the datagram
+   (other header fields, payloads of other fields, MAC, ciphertexts) is not an input of the model,
+   so the correspondence check (byte-for-byte comparison of the clear part of every answer) is what
+   shows that the real builders do not look at it either. *)
+From V Require Import Model.Response Proofs.Response Gen.ConstResponse.
+Local Open Scope Z_scope.
+
+(* Every answer Server::handle sends is a builder's answer for the decision taken, serialized. *)
+Theorem C18_answers_are_built : forall tf cfg st q recv now mlen B stats w,
+  handle tf cfg st q recv now mlen B = ORespond stats w ->
+  exists k alg a, decision cfg q = inl (Some (k, alg, stats))
+    /\ build tf k alg st q recv now mlen = Ok a /\ serialize a B = Ok w.
+Proof. exact handle_respond_inv. Qed.
+
+(* ... and starts with that answer's 48 header bytes. *)
+Theorem C18_header_first : forall a B w, serialize a B = Ok w -> exists rest, w_prefix w = a_header a ++ rest.
+Proof. exact serialize_prefix. Qed.
+
+(* Time answers (plain and NTS): server mode (4), the request's version, the request's poll, the
+   server's leap / stratum / precision / root delay / root dispersion / reference id, reference
+   timestamp = reception time truncated to 2^7 s (the upgrade marker iff a plain NTPv4 request carried it),
+   origin = the request's transmit timestamp (NTPv5: client cookie), receive = reception time, transmit =
+   clock; NTPv5: timescale 0, era 0, flags = synchronized iff stratum < 16, server cookie fresh (zeros here). *)
+Theorem C18_time_answer : forall tf k alg st q recv now mlen a,
+  (q_version q = 3 \/ q_version q = 4 \/ q_version q = 5) -> is_time_kind k = true ->
+  build tf k alg st q recv now mlen = Ok a ->
+  a_ver a = q_version q /\
+  a_header a =
+    if q_version q =? 5 then
+      [leap_bits (s_leap st) * 64 + 5 * 8 + 4; s_stratum st; q_poll q; s_precision st]
+      ++ s_rdelay_t32 st ++ s_rdisp_t32 st ++ [0; 0; 0; if s_stratum st <? 16 then 1 else 0]
+      ++ zeros 8 ++ q_xmit q ++ recv ++ now
+    else
+      [leap_bits (s_leap st) * 64 + q_version q * 8 + 4; s_stratum st; q_poll q; s_precision st]
+      ++ s_rdelay_short st ++ s_rdisp_short st ++ s_refid st
+      ++ (if (q_version q =? 4) && q_upgrade q && (match k with KTime => true | _ => false end)
+          then bytes_of_string UPGRADE_TIMESTAMP else truncate_ref recv)
+      ++ q_xmit q ++ recv ++ now.
+Proof. exact build_time_header. Qed.
+
+(* DENY, RATE and NTS-NAK answers: server mode, the request's version, stratum 0, leap 0, precision 0,
+   root delay/dispersion 0, reference/receive/transmit timestamps 0, origin (client cookie) echoed;
+   NTPv3/4: poll 0 and the kiss code as reference id; NTPv5: poll 127 (DENY), poll+1 saturating (RATE),
+   0 with the authnak flag (NAK). *)
+Theorem C18_kiss : forall tf k alg st q recv now mlen a,
+  (q_version q = 3 \/ q_version q = 4 \/ q_version q = 5) -> is_time_kind k = false ->
+  build tf k alg st q recv now mlen = Ok a ->
+  a_ver a = q_version q /\
+  a_header a =
+    if q_version q =? 5 then
+      [5 * 8 + 4; 0;
+       match k with KDeny | KNtsDeny => 127 | KRate | KNtsRate => poll_force_inc (q_poll q) | _ => 0 end; 0]
+      ++ zeros 4 ++ zeros 4 ++ [0; 0; 0; match k with KNak => 4 | _ => 0 end]
+      ++ zeros 8 ++ q_xmit q ++ zeros 8 ++ zeros 8
+    else
+      [q_version q * 8 + 4; 0; 0; 0] ++ zeros 4 ++ zeros 4
+      ++ bytes_of_string (match k with KDeny | KNtsDeny => KISS_DENY | KRate | KNtsRate => KISS_RATE | _ => KISS_NTSN end)
+      ++ zeros 8 ++ q_xmit q ++ zeros 8 ++ zeros 8.
+Proof. exact build_kiss_header. Qed.
+
+(* The extension fields of any answer: in the clear / authenticated part only unique identifiers that
+   are fields of the request's untrusted or authenticated lists (NTS answers: of the authenticated list,
+   and they stay authenticated; never of the encrypted list), reference-id responses cut from the server's
+   filter for a reference-id request of the request (NTPv5 time answers), and the draft identification
+   (NTPv5); in the encrypted part only fresh cookies, only in NTS time answers, each for a cookie or
+   placeholder of the request that is at least as long. *)
+Theorem C18_fields_subset : forall tf k alg st q recv now mlen a,
+  (q_version q = 3 \/ q_version q = 4 \/ q_version q = 5) ->
+  build tf k alg st q recv now mlen = Ok a ->
+  a_ver a = q_version q
+  /\ Forall (allowed_field k alg st q) (a_untrusted a ++ a_auth a)
+  /\ Forall (fun f => k = KNtsTime /\ f = FCookie (cookie_len alg) /\
+        exists x, In x (q_auth q ++ q_enc q) /\
+          ((exists n, x = FCookie n /\ cookie_len alg <= n) \/ (exists n, x = FPlaceholder n /\ cookie_len alg <= n)))
+       (a_enc a)
+  /\ (is_nts_kind k = true -> a_untrusted a = [] /\ a_cipher a = true /\
+        Forall (fun f => (exists d, f = FUid d) -> In f (q_auth q)) (a_auth a))
+  /\ (is_nts_kind k = false -> a_auth a = [] /\ a_enc a = [] /\ a_cipher a = false).
+Proof. exact build_fields. Qed.
+
+(* Nothing of the encrypted part of a request influences the decision, nor any answer other than
+   the NTS time answer (which only counts and measures the cookies and placeholders in it). *)
+Theorem C18_ignores_encrypted : forall tf k alg st q recv now mlen e,
+  k <> KNtsTime -> build tf k alg st (with_enc q e) recv now mlen = build tf k alg st q recv now mlen.
+Proof. exact build_ignores_encrypted. Qed.
+
+(* A request whose authenticator could not be decrypted is answered, if at all, with an NTS-NAK or a
+   DENY (C18_kiss, C18_fields_subset: header zeros, echoed unique identifiers and the draft id only). *)
+Theorem C18_nothing_undecryptable : forall cfg q k alg stats,
+  q_decrypt_failed q = true -> decision cfg q = inl (Some (k, alg, stats)) ->
+  (k = KNak /\ stats = [q_version q; 1; 2; 0]) \/ (k = KDeny /\ c_intended cfg = 1).
+Proof. exact decision_decrypt_failed. Qed.
+
+Example C18_nonvacuous :
+  let q := {| q_version := 5; q_mode := 3; q_poll := 6; q_xmit := [1;2;3;4;5;6;7;8]; q_upgrade := false;
+              q_untrusted := [FUnknown 9 12; FUid [9;9;9;9]; FRefReq 4 2; FDraft draft_bytes; FPlaceholder 104];
+              q_auth := []; q_enc := []; q_mac := 0; q_cookie := None; q_decrypt_failed := false; q_auths := [] |} in
+  let st := {| s_stratum := 2; s_leap := 1; s_refid := [1;2;3;4]; s_precision := 238; s_rdelay_short := [0;0;0;0];
+               s_rdisp_short := [0;0;0;2]; s_rdelay_t32 := [0;0;0;1]; s_rdisp_t32 := [0;0;0;3]; s_filter := [10;11;12;13;14;15;16;17] |} in
+  wf_request q = true /\
+  match build false KTime 0 st q [0;0;0;255;1;1;1;1] [7;7;7;7;7;7;7;7] 132 with
+  | Ok a => a_untrusted a = [FUid [9;9;9;9]; FRefResp [12;13;14;15]; FDraft draft_bytes]
+            /\ firstn 4 (a_header a) = [108; 2; 6; 238]
+  | _ => False
+  end.
+Proof. vm_compute. repeat split. Qed.
+
+Print Assumptions C18_answers_are_built.
+Print Assumptions C18_header_first.
+Print Assumptions C18_time_answer.
+Print Assumptions C18_kiss.
+Print Assumptions C18_fields_subset.
+Print Assumptions C18_ignores_encrypted.
+Print Assumptions C18_nothing_undecryptable.
